@@ -47,7 +47,6 @@ func main() { lib.Main("C11", run) }
 // source renders a call. typed: arguments as (num ...) values, else as their string representations.
 func source(cmd string, args, step []numx.Val, typed bool) string {
 	var sb strings.Builder
-	sb.WriteString("use math; ")
 	sb.WriteString(cmd)
 	r := func(v numx.Val) string {
 		if typed {
@@ -121,7 +120,7 @@ func kind(want, got numx.Outcome) string {
 	return "wrong-value"
 }
 
-func show(cmd string, args, step []numx.Val) string { return source(cmd, args, step, false)[10:] }
+func show(cmd string, args, step []numx.Val) string { return source(cmd, args, step, false) }
 
 // replayCase runs one prescribed case in both argument spellings.
 func replayCase(c *lib.Ctx, ev *eval.Evaler, gc acase) error {
@@ -139,7 +138,7 @@ func replayCase(c *lib.Ctx, ev *eval.Evaler, gc acase) error {
 		c.AddEvals(1)
 		if !got.Equal(gc.Out) {
 			key := sig(gc.Cmd, gc.Args, gc.Step) + ":" + kind(gc.Out, got)
-			c.Reject(key, fmt.Sprintf("%s -> %s; Arith.tla prescribes %s", code[10:], desc, gc.Out), gc)
+			c.Reject(key, fmt.Sprintf("%s -> %s; Arith.tla prescribes %s", code, desc, gc.Out), gc)
 			return nil
 		}
 	}
@@ -176,7 +175,7 @@ func run(c *lib.Ctx) error {
 	if c.Replay != "" {
 		return replay(c)
 	}
-	ev := elv.New()
+	ev := newEvaler()
 	c.Set("rule", "a case is (command, argument list, step); distinct by its rendered call; counted only when Arith.tla prescribes values or an exception (Unspecified and inexact cases are not counted)")
 
 	// ---- V, recording half: random calls of the real builtins (judged by TLC below)
@@ -382,6 +381,16 @@ func reportRandom(c *lib.Ctx, cases []vcase, bad []lib.BadCase) error {
 	return nil
 }
 
+// newEvaler returns an interpreter with math: imported once (importing it in every evaluation
+// would add one global slot per call and make long runs quadratic).
+func newEvaler() *eval.Evaler {
+	ev := elv.New()
+	if o := elv.Run(ev, "use math"); o.Err != nil || o.Panic != "" {
+		panic(fmt.Sprintf("use math: %v %s", o.Err, o.Panic))
+	}
+	return ev
+}
+
 func replay(c *lib.Ctx) error {
 	b, err := os.ReadFile(c.Replay)
 	if err != nil {
@@ -393,7 +402,7 @@ func replay(c *lib.Ctx) error {
 	if err := json.Unmarshal(b, &f); err != nil {
 		return lib.Infra("%v", err)
 	}
-	ev := elv.New()
+	ev := newEvaler()
 	var probe struct {
 		Out *numx.Outcome `json:"out"`
 	}
